@@ -314,6 +314,27 @@ def roundtrip(mon: Mon, ctx, rng, tp):
         ctx.sample({"header": header_before, "claims": expect_json, "transport": tp["kind"] + ":" + tp["alg"], "token": token[:300]})
 
 
+def non_finite_claims(mon, ctx, rng, tp):
+    """claims holding NaN / Infinity: jwt.encode refuses them or produces a token jwt.decode gives the claims back from - it does not write the bare words
+    NaN / Infinity (no JSON, RFC 8259) into a payload its own decode then refuses"""
+    j = J.load()
+    for wname, w in (("NaN", float("nan")), ("Infinity", float("inf")), ("-Infinity-nested", [1, {"b": float("-inf")}])):
+        ctx.ev()
+        header = {"alg": alg_name(tp["alg"])} if tp["kind"] == "jws" else {"alg": tp["alg"], "enc": tp["enc"]}
+        priv, pub = j.key(dict(tp["key"])), j.key(gen.public_jwk(dict(tp["key"])))
+        ek, dk = (priv, pub) if tp["kind"] == "jws" else (pub, priv)
+        kw = {"algorithms": [header["alg"]]} if tp["kind"] == "jws" else {"registry": j.jwe.JWERegistry(algorithms=[tp["alg"], tp["enc"]])}
+        o = call(j.jwt.encode, header, {"sub": "x", "a": w}, ek, **kw)
+        ctx.count("non_finite_claims_cases")
+        ctx.nontrivial(("nonfinite", wname, tp["kind"], tp["alg"]))
+        if not o.ok:
+            continue
+        d, ev = mon.decode(o.value, dk, **kw)
+        if not d.ok:
+            ctx.violation("encode-writes-what-decode-refuses:non-finite-number", f"jwt.encode produced a token for claims holding {wname} (over {tp['kind']}) which jwt.decode "
+                          f"refuses: {d.exc!r}", {"non_finite_claims": True, "value": wname, "transport": {k: v for k, v in tp.items()}, "token": o.value})
+
+
 HOSTILE = [
     ("array", b"[1,2]"), ("empty-array", b"[]"), ("string", b'"str"'), ("int", b"12"), ("float", b"1.5"), ("null", b"null"), ("true", b"true"),
     ("false", b"false"), ("empty", b""), ("space", b" "), ("text", b"hello"), ("non-utf8", b"\xff\xfe{}"), ("truncated", b'{"a":1'),
@@ -390,6 +411,7 @@ def run_shard(ctx):
                 hostile(mon, ctx, rng, tp, name, payload, "invalid")
             for name, payload in OPEN_PAYLOADS:
                 hostile(mon, ctx, rng, tp, name, payload, "open")
+            non_finite_claims(mon, ctx, rng, tp)
             for name, payload in OBJECT_PAYLOADS:
                 hostile(mon, ctx, rng, tp, name, payload, "object")
             deep = 100000 if ctx.tier == "thorough" else 20000
@@ -414,7 +436,9 @@ def replay(ctx, case):
     J.load()
     mon = Mon(ctx)
     try:
-        if "payload_class" in case:
+        if case.get("non_finite_claims"):
+            non_finite_claims(mon, ctx, ctx.rng, case["transport"])
+        elif "payload_class" in case:
             hostile(mon, ctx, ctx.rng, case["transport"], case["payload_class"], case["payload"], "invalid")
         else:
             for _ in range(50):
